@@ -247,6 +247,9 @@ def c05(tier, seed, only=None):
         if name in ("F6/dict-two-terminals", "F6/cleanup-publishes-output", "F6/dict-republish-nobase",
                     "F6/dict-republish"):
             j["cfg"]["dev"] = (3 if j["cfg"].get("rerun") else 2) if tier == "quick" else 4
+        if name == "F5/retry-on-join1" and not j["cfg"].get("rerun"):
+            # a failure, a late sibling arrival before the retry is picked up, and the persist point
+            j["cfg"]["dev"] = 3 if tier == "quick" else 4
     # definitions whose input / vars / output fail to render (persist before the first call, too)
     for s in gen.fx_all(tier):
         if s.meta.get("position") in ("input", "vars", "output", "retry_count", "publish") and s.meta.get("lang") == "yaql":
